@@ -336,3 +336,30 @@ static Args c18_const_decode(Ctx& ctx, Dec& d)
 static Reg r_c18_const({ "C18.const", "C18", "rc",
   "generated programs: x << R and x >> R with R a LITERAL shift count (0,1,2,15..17,31..33,46..48,61..63,-1,-64), compiled under every configuration (a compile-time-constant count takes different paths in the optimiser and in __builtin_constant_p shortcuts); x placed so that x*2^R straddles the range limit; oracle as C18.shift; non-trivial = negative x, negative or >= 62 count, x*2^R out of range",
   c18_const_check, 12, c18_const_decode, nullptr });
+
+// ================================================================ two uses of one object with a modification in between
+// (a function that takes the object by reference / as *this and is wrongly declared gnu::const lets the optimiser
+// reuse the first result). args = [which, a, b, r]; expected = the single-use entry applied to a+b by the same build.
+struct TwiceSpec { int twice, single; bool has_r; };
+static const TwiceSpec kTwiceC04[5] = { { E_to_twice_i32, E_to_i32, false }, { E_to_twice_u16, E_to_u16, false }, { E_to_twice_i64, E_to_i64, false }, { E_f2a_twice_i32, E_f2a_i32, false }, { E_f2a_twice_u8, E_f2a_u8, false } };
+static const TwiceSpec kTwiceC18[2] = { { E_shl_twice, E_shl, true }, { E_shr_twice, E_shr, true } };
+static const TwiceSpec kTwiceC06[1] = { { E_abs_twice, E_abs, false } };
+static void twice_check(Ctx& ctx, const Args& a, const TwiceSpec* specs, int n)
+{
+  if (a.size() != 4 || a[0] < 0 || a[0] >= n || !m_finite128(a[1]) || !m_finite128(a[2]) || a[3] < 0 || a[3] > 63) { ctx.skip(); return; }
+  const TwiceSpec& s = specs[a[0]]; i128 sum = (i128)a[1] + a[2]; if (!m_finite128(sum)) { ctx.skip(); return; }
+  ctx.cls(g_sigs[s.twice].name); if (a[2] != 0) ctx.nontriv();
+  for (size_t ci = 0; ci < ctx.cuts.size(); ++ci) {
+    int64_t got, exp; if (!ctx.call(ci, s.twice, a[1], a[2], s.has_r ? a[3] : 0, got)) continue;
+    if (!(s.has_r ? ctx.call(ci, s.single, (int64_t)sum, a[3], exp) : ctx.call(ci, s.single, (int64_t)sum, exp))) continue;
+    if (got != exp) ctx.fail(ci, strf("%s: second use of the same object after x += %" PRId64 " gives %" PRId64 ", a fresh call on the modified value %s gives %" PRId64 " (x was %" PRId64 ")", g_sigs[s.twice].name, a[2], got, i128s(sum).c_str(), exp, a[1]));
+  }
+}
+static void c04_twice_check(Ctx& c, const Args& a) { twice_check(c, a, kTwiceC04, 5); }
+static void c18_twice_check(Ctx& c, const Args& a) { twice_check(c, a, kTwiceC18, 2); }
+static void c06_twice_check(Ctx& c, const Args& a) { twice_check(c, a, kTwiceC06, 1); }
+template<int N> static Args twice_decode(Ctx&, Dec& d) { int w = (int)d.range(0, N - 1); int64_t x = dec_raw(d, 60), y = dec_raw(d, 40); int64_t r = (int64_t)(d.u64() % 24); if (d.range(0, 3) == 0) y = (int64_t)(d.u64() % 1000) * 65536 + 65536; return { w, x, y, r }; }
+static const char* kTwiceDesc = "call context: one fixed_t object is used, modified (x += b) and used again inside one function (static_cast<T>, fixed_to_arithmetic<T>, <<, >>, abs), on every build; oracle: the second result equals the same operation applied by the same build to a fresh object holding a+b; non-trivial = b != 0";
+static Reg r_c04_twice({ "C04.twice", "C04", "rc", kTwiceDesc, c04_twice_check, 16, twice_decode<5>, nullptr });
+static Reg r_c18_twice({ "C18.twice", "C18", "rc", kTwiceDesc, c18_twice_check, 16, twice_decode<2>, nullptr });
+static Reg r_c06_twice({ "C06.twice", "C06", "rc", kTwiceDesc, c06_twice_check, 16, twice_decode<1>, nullptr });
